@@ -137,6 +137,17 @@ func Step(c *Chain, rec *Recorder, op Ev) (applied bool) {
 			rec.Emit(ev, c.TakeCallbacks(), c.Project())
 		}
 		return true
+	case "Restart":
+		if !c.Prepared || c.Phase != "deliver" {
+			return false
+		}
+		out := c.Restart()
+		ev := Ev{Name: "Restart", OK: out.OK, Panic: out.Panic, Err: out.Err}
+		c.normalise(&ev)
+		if rec != nil {
+			rec.Emit(ev, c.TakeCallbacks(), c.Project())
+		}
+		return true
 	case "Genesis":
 		ev := Ev{Name: "Genesis", OK: true, Gen: c.GenesisObs()}
 		c.normalise(&ev)
@@ -211,7 +222,7 @@ func RunHistory(rec *Recorder, h History) *Chain {
 	}
 	stopped := false
 	for _, op := range h.Ops {
-		stopped = stopped || op.Name == "PrepZeroHeight"
+		stopped = (stopped || op.Name == "PrepZeroHeight") && op.Name != "Restart"
 	}
 	if h.Reset.Tag != "" && len(h.Ops) > 0 && h.Ops[len(h.Ops)-1].Name != "Obs" && ObserveAtEnd && !stopped {
 		Step(c, rec, Ev{Name: "Obs"})
